@@ -180,8 +180,7 @@ def K4_alloc(ctx):
         if fn is None:
             continue
         inst = prog.ident(fk)
-        hit = [b for (b, t, c) in prog.sites(inst) if prog.callee_key(c).startswith("std::collections::HashMap::<") and
-               prog.callee_key(c).endswith("::" + method) and mentions_field(arg_expr(fn.body, t, 0), EXEC, "raw_allocations")]
+        hit = [b for (b, t, c) in prog.sites(inst) if is_std_collection_call(prog.callee_key(c), method) and mentions_field(arg_expr(fn.body, t, 0), EXEC, "raw_allocations")]
         if hit:
             ctx.ok("K4", enclosing_fn(fk) + ":registry", "raw_allocations.%s" % method, [site_str(prog, fk, hit[0])])
         else:
